@@ -111,6 +111,19 @@ static void run_type(mon::Rng& rng, const vsbx_library& lib)
     tainted<T, S> tv = v;
     ab = mon::aborts([&] { *cell = tv; });
     judge("store-tainted", x, gf, ab, true, ref::val(Wd::template rd<G>(sb, off)));
+    // the other spellings of a store: compound assignment whose left operand is the sandbox cell (0 += v, 0 |= v): the plain
+    // operators leave exactly v in a T, so the cell must receive v or the operation must abort
+    if constexpr (!std::is_same_v<T, bool>) {
+      mon::ctx("path/store-compound-add/%s/%s | v=%s", cfg, tn, mon::i128s(x).c_str());
+      Wd::template wr<G>(sb, off, G(0));
+      ab = mon::aborts([&] { *cell += v; });
+      judge("store-compound-add", x, gf, ab, true, ref::val(Wd::template rd<G>(sb, off)));
+      if (!gf && ab && Wd::template rd<G>(sb, off) != G(0)) bad(cfg, "store-compound-add", tn, "refused-store-wrote", mon::i128s(x));
+      mon::ctx("path/store-compound-or/%s/%s | v=%s", cfg, tn, mon::i128s(x).c_str());
+      Wd::template wr<G>(sb, off, G(0));
+      ab = mon::aborts([&] { *cell |= tv; });
+      judge("store-compound-or", x, gf, ab, true, ref::val(Wd::template rd<G>(sb, off)));
+    }
     // invoke argument (plain and tainted)
     for (int form = 0; form < 2; form++) {
       const char* path = form ? "invoke-arg-tainted" : "invoke-arg-plain";
